@@ -12,8 +12,15 @@ with what each resolver does (the "world" folded into the operation):
                "nn": bool,          the field type is non-null
                "b": body}
     body    = ["int", z] | ["null"] | ["err"] | ["exn", x]
-            | ["obj", [fld, ...]] | ["list", inn, "int"|"obj", [item, ...]]
-    item    = ["null"] | ["int", z] | ["obj", [fld, ...]]
+            | ["snull"]            the resolver returns a non-null value of the custom scalar Sc
+                                   that *serialises to null* (completes to null)
+            | ["sbad", x]          ... a value whose serialisation raises (RuntimeError tagged x
+                                   raised by complete_value, not by the resolver)
+            | ["obj", [fld, ...]] | ["list", inn, "int"|"obj"|"sc", [item, ...]]
+    item    = ["null"] | ["int", z] | ["obj", [fld, ...]] | ["snull"] (in an "sc" list)
+  In the Coq abstraction snull is BNull / ItNull ("the completed value is null") and
+  sbad x is BExn x ("an unexpected exception is raised by the resolver or by completing
+  its value"): the events and every observable of the machine are the same.
 
 From a program this module derives a real GraphQL document over a fixed
 schema (field name = shape + mode, e.g. `onC` = `T!` provided by a coroutine /
@@ -29,11 +36,14 @@ program's abstraction *for a given configuration* to the Coq type
     C     plain function      coroutine function (deferred)      pool: plain function -> pool task; aiot: coroutine (deferred)
 """
 from py_gql import build_schema, process_graphql_query
-from py_gql.exc import ResolverError
+from py_gql.exc import ResolverError, ScalarSerializationError
+from py_gql.schema import ScalarType
 from py_gql.lang import parse
 from py_gql.validation import validate_ast
 from py_gql.execution import BlockingExecutor, Executor
 from py_gql.execution.runtime import BlockingRuntime
+
+import re
 
 from . import sched
 
@@ -51,7 +61,31 @@ SHAPES = {  # shape name -> (GraphQL type, non-null?, kind)
     "lO": ("[T!]", False, "lobjn"), "lOn": ("[T!]!", True, "lobjn"),
     "li": ("[Int]", False, "lint"), "lin": ("[Int]!", True, "lint"),
     "lI": ("[Int!]", False, "lintn"), "lIn": ("[Int!]!", True, "lintn"),
+    "s": ("Sc", False, "sc"), "sn": ("Sc!", True, "sc"),
+    "ls": ("[Sc]", False, "lsc"), "lsn": ("[Sc]!", True, "lsc"),
+    "lS": ("[Sc!]", False, "lscn"), "lSn": ("[Sc!]!", True, "lscn"),
 }
+
+
+class ScNull:
+    """a non-null internal value of the custom scalar that serialises to null"""
+
+
+class ScBad:
+    def __init__(self, tag):
+        self.tag = tag
+
+
+def _sc_serialize(v):
+    if isinstance(v, ScNull):
+        return None
+    if isinstance(v, ScBad):
+        raise ScalarSerializationError("x%d" % v.tag)
+    return v
+
+
+def _sc_type():
+    return ScalarType("Sc", serialize=_sc_serialize, parse=lambda v: v)
 
 
 # schema layouts (program["layout"], default "distinct"): the property quantifies over all
@@ -66,7 +100,7 @@ LAYOUTS = {"distinct": ("Q", "M", ["Q", "M", "T"]), "shared": ("T", "T", ["T"]),
 def _sdl(layout="distinct"):
     fields = "\n".join("  %s%s: %s" % (sh, m, SHAPES[sh][0]) for sh in SHAPES for m in MODES)
     q, mu, types = LAYOUTS[layout]
-    return ("schema { query: %s mutation: %s }\n" % (q, mu)
+    return ("scalar Sc\nschema { query: %s mutation: %s }\n" % (q, mu)
             + "".join("type %s {\n%s\n}\n" % (t, fields) for t in types))
 
 
@@ -83,8 +117,10 @@ def shape_of(fld):
     nn = fld["nn"]
     if b[0] == "obj":
         return "on" if nn else "o"
+    if b[0] in ("snull", "sbad"):
+        return "sn" if nn else "s"
     if b[0] == "list":
-        base = {"obj": "lo", "int": "li"}[b[2]]
+        base = {"obj": "lo", "int": "li", "sc": "ls"}[b[2]]
         if b[1]:
             base = base[0] + base[1].upper()
         return base + ("n" if nn else "")
@@ -169,11 +205,16 @@ class _Run:
             raise ResolverError("resolver error")
         if b[0] == "exn":
             raise RuntimeError("x%d" % b[1])
+        if b[0] == "snull":
+            return ScNull()
+        if b[0] == "sbad":
+            return ScBad(b[1])
         if b[0] == "obj":
             return Obj(self)
         out = []
         for it in b[3]:
-            out.append(None if it[0] == "null" else it[1] if it[0] == "int" else Obj(self))
+            out.append(None if it[0] == "null" else it[1] if it[0] == "int"
+                       else ScNull() if it[0] == "snull" else Obj(self))
         return out
 
     # S everywhere; P/C under the blocking configurations; P under asyncio
@@ -244,7 +285,7 @@ def _schema(config, run_box, layout="distinct"):
     """one schema per configuration and layout (resolvers dispatch to the current run)"""
     if (config, layout) in _SCHEMAS:
         return _SCHEMAS[(config, layout)]
-    schema = build_schema(_sdl(layout))
+    schema = build_schema(_sdl(layout), additional_types=[_sc_type()])
     for tname in LAYOUTS[layout][2]:
         for sh in SHAPES:
             for m in ("P", "C"):
@@ -291,6 +332,9 @@ def _exc_obs(e):
         msg = str(e)
         if msg.startswith("x") and msg[1:].isdigit():
             return {"fail": int(msg[1:])}
+        m = re.search(r'cannot be serialized as "Sc!?": x(\d+)$', msg)
+        if m:
+            return {"fail": int(m.group(1))}
     return {"fail_other": type(e).__name__, "msg": str(e)[:200]}
 
 
@@ -470,8 +514,10 @@ def c_flds(fs, config):
 def c_body(b, config):
     if b[0] == "int":
         return "(BInt %s)" % cz(b[1])
-    if b[0] == "null":
+    if b[0] in ("null", "snull"):
         return "BNull"
+    if b[0] == "sbad":
+        return "(BExn %d)" % b[1]
     if b[0] == "err":
         return "BErr"
     if b[0] == "exn":
@@ -480,7 +526,7 @@ def c_body(b, config):
         return "(BObj %s)" % c_flds(b[1], config)
     items = "INil"
     for it in reversed(b[3]):
-        if it[0] == "null":
+        if it[0] in ("null", "snull"):
             t = "ItNull"
         elif it[0] == "int":
             t = "(ItInt %s)" % cz(it[1])
